@@ -20,7 +20,7 @@ def run_case(case):
     std = case["std"]
     keep = case["keep"]
     res = {"key": [case["seed"], std, keep], "counts": {}, "findings": [], "nontrivial": True}
-    opts = layout.FreeOpts(p_cont=0.3, comments=True, p_extra_blank=0.0)
+    opts = layout.FreeOpts(p_cont=0.3, comments=True, p_extra_blank=0.0, p_blank=0.15)
     # comment texts with the characters str.splitlines() treats as line breaks although they are
     # not (form feed = the page breaks of legacy sources, VT, FS/GS/RS, NEL, LS/PS): a physical
     # line ends at \n only
@@ -28,6 +28,14 @@ def run_case(case):
     if case["seed"] % 2 == 0:
         ctexts = layout.COMMENT_TEXTS + ["! page\x0cbreak", "!\x0c", "! vt\x0bx", "! fs\x1cgs\x1drs\x1e", "! nel\x85x", "! ls\u2028ps\u2029"]
     L = layout.render_free(p, case["seed"] ^ 0xC07, opts, comment_texts=ctexts)
+    if case["seed"] % 2 == 0:
+        # blank lines that consist of such a character (a form feed on a line of its own is the
+        # page break of legacy sources): still one physical line each
+        r1 = random.Random(case["seed"] ^ 0xFF)
+        for i_, l_ in enumerate(L.lines):
+            if not l_.strip() and r1.random() < 0.7:
+                L.lines[i_] = r1.choice(["\x0c", " \x0c", "\x0b", "\x1c", "\x0c\x0c"])
+                res["counts"]["pseudo-linebreak-blank-line"] = res["counts"].get("pseudo-linebreak-blank-line", 0) + 1
     base = list(L.lines)
     o = real.try_parse(L.text(), std=std, ignore_comments=not keep, free=True)
     if o.kind != "tree":
